@@ -16,6 +16,7 @@ Section node_ind'.
   Variable P : node -> Prop.
   Hypothesis HR : forall r, P (NTR r).
   Hypothesis HS : forall e, P (NE2S e).
+  Hypothesis HX : forall f, P (NFor f).
   Hypothesis HM : forall l, Forall (fun ec => P (snd ec)) l -> P (NMulti l).
   Hypothesis HF : forall ff e x, P x -> P (NTFR ff e x).
   Hypothesis HO : forall e x, P x -> P (NE2O e x).
@@ -24,23 +25,28 @@ Section node_ind'.
     let fix go (l : list (bool * node)) : Forall (fun ec => P (snd ec)) l :=
       match l with [] => Forall_nil _ | ec :: r => Forall_cons ec (node_ind' (snd ec)) (go r) end in
     match n with
-    | NTR r => HR r | NE2S e => HS e | NMulti l => HM l (go l)
+    | NTR r => HR r | NE2S e => HS e | NFor f => HX f | NMulti l => HM l (go l)
     | NTFR ff e x => HF ff e x (node_ind' x) | NE2O e x => HO e x (node_ind' x)
     | NDeco ff x => HD ff x (node_ind' x)
     end.
 End node_ind'.
 
-Inductive leaf := LTR (r : tr) | LE2S (e : e2s).
-Definition leaf_stopped (l : leaf) : bool := match l with LTR r => tr_stopped r | LE2S e => e_stopped e end.
-Definition leaf_stop (l : leaf) : leaf := match l with LTR r => LTR (tr_stop r) | LE2S e => LE2S (e2s_stop e) end.
-Definition leaf_ok (l : leaf) : bool := match l with LTR r => tr_ok r | LE2S e => e2s_ok e end.
-Definition leaf_out (l : leaf) : list summary := match l with LTR r => tr_out r | LE2S _ => [] end.
-Definition leaf_ff (l : leaf) : bool := match l with LTR r => tr_ff r | LE2S e => e_ff e end.
+Inductive leaf := LTR (r : tr) | LE2S (e : e2s) | LFor (f : fo).
+Definition leaf_stopped (l : leaf) : bool :=
+  match l with LTR r => tr_stopped r | LE2S e => e_stopped e | LFor f => fo_stopped f end.
+Definition leaf_stop (l : leaf) : leaf :=
+  match l with LTR r => LTR (tr_stop r) | LE2S e => LE2S (e2s_stop e) | LFor f => LFor (fo_stop f) end.
+Definition leaf_ok (l : leaf) : bool := match l with LTR r => tr_ok r | LE2S e => e2s_ok e | LFor f => fo_ok f end.
+Definition leaf_out (l : leaf) : list summary := match l with LTR r => tr_out r | LE2S _ | LFor _ => [] end.
+Definition leaf_ff (l : leaf) : bool := match l with LTR r => tr_ff r | LE2S e => e_ff e | LFor f => fo_ff f end.
+(* startTestRun clears shouldStop on testtools' own results only *)
+Definition leaf_resets (l : leaf) : bool := match l with LFor _ => false | _ => true end.
 
 Fixpoint lvs (n : node) : list leaf :=
   match n with
   | NTR r => [LTR r]
   | NE2S e => [LE2S e]
+  | NFor f => [LFor f]
   | NMulti l => flat_map (fun ec => lvs (snd ec)) l
   | NTFR _ _ x | NE2O _ x | NDeco _ x => lvs x
   end.
@@ -55,13 +61,13 @@ Proof. induction 1 as [|x r H _ IH]; simpl; [reflexivity|]. rewrite H, IH. refle
 
 Lemma leaf_stops_lvs n : leaf_stops n = map leaf_stopped (lvs n).
 Proof.
-  induction n as [r|e|l IH|ff e x IH|e x IH|ff x IH] using node_ind'; simpl; try reflexivity; try exact IH.
+  induction n as [r|e|f|l IH|ff e x IH|e x IH|ff x IH] using node_ind'; simpl; try reflexivity; try exact IH.
   rewrite map_flat_map. apply flat_map_ext_F. exact IH.
 Qed.
 
 Lemma leaf_outs_lvs n : leaf_outs n = map leaf_out (lvs n).
 Proof.
-  induction n as [r|e|l IH|ff e x IH|e x IH|ff x IH] using node_ind'; simpl; try reflexivity; try exact IH.
+  induction n as [r|e|f|l IH|ff e x IH|e x IH|ff x IH] using node_ind'; simpl; try reflexivity; try exact IH.
   rewrite map_flat_map. apply flat_map_ext_F. exact IH.
 Qed.
 
@@ -78,14 +84,14 @@ Proof. induction 1 as [|x r H _ IH]; simpl; [reflexivity|]. rewrite H, IH. refle
 
 Lemma was_ok_lvs n : was_ok n = forallb leaf_ok (lvs n).
 Proof.
-  induction n as [r|e|l IH|ff e x IH|e x IH|ff x IH] using node_ind'; simpl;
+  induction n as [r|e|f|l IH|ff e x IH|e x IH|ff x IH] using node_ind'; simpl;
     try (rewrite andb_true_r; reflexivity); try exact IH.
   rewrite forallb_flat_map. apply forallb_ext_F. exact IH.
 Qed.
 
 Lemma should_stop_lvs n : should_stop n = existsb leaf_stopped (lvs n).
 Proof.
-  induction n as [r|e|l IH|ff e x IH|e x IH|ff x IH] using node_ind'; simpl;
+  induction n as [r|e|f|l IH|ff e x IH|e x IH|ff x IH] using node_ind'; simpl;
     try (rewrite orb_false_r; reflexivity); try exact IH.
   rewrite existsb_flat_map. apply existsb_ext_F. exact IH.
 Qed.
@@ -99,7 +105,7 @@ Proof. rewrite should_stop_lvs, leaf_stops_lvs, existsb_map. reflexivity. Qed.
 
 Lemma lvs_stop n : lvs (stop n) = map leaf_stop (lvs n).
 Proof.
-  induction n as [r|e|l IH|ff e x IH|e x IH|ff x IH] using node_ind'; simpl; try reflexivity; try exact IH.
+  induction n as [r|e|f|l IH|ff e x IH|e x IH|ff x IH] using node_ind'; simpl; try reflexivity; try exact IH.
   rewrite map_flat_map. induction IH as [|ec r H _ IHr]; simpl; [reflexivity|]. rewrite H, IHr. reflexivity.
 Qed.
 
@@ -117,6 +123,7 @@ Fixpoint frame (n : node) : fr :=
   match n with
   | NTR r => FL (tr_ff r)
   | NE2S e => FL (e_ff e)
+  | NFor f => FL (fo_ff f)
   | NMulti l => FM (map (fun ec => (fst ec, frame (snd ec))) l)
   | NTFR ff e x => FT ff e (frame x)
   | NE2O e x => FO e (frame x)
@@ -136,11 +143,11 @@ Fixpoint fget (f : fr) : bool :=
 Definition fe2o_get (ec : bool * fr) : bool := if fhas (snd ec) then fget (snd ec) else fst ec.
 
 Lemma has_ff_frame n : has_ff n = fhas (frame n).
-Proof. destruct n as [r|e|l|ff e x|e x|[b|] x]; reflexivity. Qed.
+Proof. destruct n as [r|e|f|l|ff e x|e x|[b|] x]; reflexivity. Qed.
 
 Lemma get_ff_frame n : get_ff n = fget (frame n).
 Proof.
-  induction n as [r|e|l IH|ff e x IH|e x IH|ff x IH] using node_ind'; simpl; try reflexivity.
+  induction n as [r|e|f|l IH|ff e x IH|e x IH|ff x IH] using node_ind'; simpl; try reflexivity.
   - destruct l as [|ec r]; simpl; [reflexivity|]. inversion IH; subst.
     rewrite <- has_ff_frame. destruct (has_ff (snd ec)); [assumption|reflexivity].
   - rewrite <- has_ff_frame, IH. reflexivity.
@@ -154,7 +161,7 @@ Proof. induction 1 as [|x r H _ IH]; simpl; [reflexivity|]. rewrite H, IH. refle
 
 Lemma frame_stop n : frame (stop n) = frame n.
 Proof.
-  induction n as [r|e|l IH|ff e x IH|e x IH|ff x IH] using node_ind'; simpl; try reflexivity;
+  induction n as [r|e|f|l IH|ff e x IH|e x IH|ff x IH] using node_ind'; simpl; try reflexivity;
     try (rewrite IH; reflexivity).
   f_equal. rewrite map_map. apply map_ext_F. eapply Forall_impl; [|exact IH].
   intros ec H. simpl. rewrite H. reflexivity.
@@ -168,12 +175,15 @@ Proof.
 Qed.
 Lemma e_ff_step e o : e_ff (e2s_step e o) = e_ff e.
 Proof. destruct o; reflexivity. Qed.
+Lemma fo_ff_step f o : fo_ff (fo_step f o) = fo_ff f.
+Proof. destruct o; reflexivity. Qed.
 
 Lemma frame_step n : forall o, frame (step n o) = frame n.
 Proof.
-  induction n as [r|e|l IH|ff e x IH|e x IH|ff x IH] using node_ind'; intro o; simpl.
+  induction n as [r|e|f|l IH|ff e x IH|e x IH|ff x IH] using node_ind'; intro o; simpl.
   - rewrite tr_ff_step. reflexivity.
   - rewrite e_ff_step. reflexivity.
+  - rewrite fo_ff_step. reflexivity.
   - f_equal. rewrite map_map. apply map_ext_F. eapply Forall_impl; [|exact IH].
     intros ec H. simpl.
     destruct (is_bad_call o && _); simpl; rewrite ?frame_stop, H; reflexivity.
@@ -187,7 +197,7 @@ Qed.
 Lemma frame_stop_at p : forall n, frame (stop_at p n) = frame n.
 Proof.
   induction p as [|j q IHq]; intro n; [apply frame_stop|].
-  destruct n as [r|e|l|ff e x|e x|ff x]; simpl; try reflexivity;
+  destruct n as [r|e|f|l|ff e x|e x|ff x]; simpl; try reflexivity;
     try (destruct j; simpl; rewrite ?IHq; reflexivity).
   f_equal. revert j. induction l as [|ec r IHl]; intro j; [reflexivity|].
   destruct j; simpl; [rewrite IHq; reflexivity|]. rewrite IHl. reflexivity.
@@ -227,7 +237,7 @@ Fixpoint finfo (cov u : bool) (f : fr) : list (bool * bool) :=
 
 Lemma will_stop_finfo n : forall cov u, will_stop cov n = map snd (finfo cov u (frame n)).
 Proof.
-  induction n as [r|e|l IH|ff e x IH|e x IH|ff x IH] using node_ind'; intros cov u; simpl; try reflexivity;
+  induction n as [r|e|f|l IH|ff e x IH|e x IH|ff x IH] using node_ind'; intros cov u; simpl; try reflexivity;
     try apply IH.
   - induction IH as [|ec r H _ IHr]; simpl; [reflexivity|]. rewrite map_app, <- IHr. f_equal.
     rewrite (e2o_get_frame ec). apply H.
@@ -237,7 +247,7 @@ Qed.
 
 Lemma finfo_length n : forall cov u, length (finfo cov u (frame n)) = length (lvs n).
 Proof.
-  induction n as [r|e|l IH|ff e x IH|e x IH|ff x IH] using node_ind'; intros cov u; simpl; try reflexivity;
+  induction n as [r|e|f|l IH|ff e x IH|e x IH|ff x IH] using node_ind'; intros cov u; simpl; try reflexivity;
     try apply IH.
   induction IH as [|ec r H _ IHr]; simpl; [reflexivity|]. rewrite !app_length, H, IHr. reflexivity.
 Qed.
@@ -288,12 +298,12 @@ Proof. unfold map2. rewrite map_map. reflexivity. Qed.
 (* what reaches a result below a ThreadsafeForwardingResult *)
 Definition tfr_conv (o : op) : option op :=
   match o with
-  | Outcome k t => Some (Block k t)
+  | Outcome k d t => Some (Block k d t)
   | StartTest _ | StopTest _ => None
   | _ => Some o
   end.
 Definition leaf_step (l : leaf) (o : op) : leaf :=
-  match l with LTR r => LTR (tr_step r o) | LE2S e => LE2S (e2s_step e o) end.
+  match l with LTR r => LTR (tr_step r o) | LE2S e => LE2S (e2s_step e o) | LFor f => LFor (fo_step f o) end.
 Definition leaf_deliver (u : bool) (l : leaf) (o : op) : leaf :=
   match (if u then tfr_conv o else Some o) with Some m => leaf_step l m | None => l end.
 (* u: below a forwarder; w: stopped by the stack at a bad outcome *)
@@ -315,6 +325,12 @@ Proof.
   intros Hb Hf. destruct o; simpl in Hb; try discriminate;
     unfold e2s_step, e2s_stop, e2s_outcome, e2s_start_test; cbn [e_errs e_open e_stopped e_ff];
     rewrite table_failfast, Hb, Hf; cbn [andb]; rewrite orb_true_r; reflexivity.
+Qed.
+
+Lemma fo_self_stop f o : is_bad_call o = true -> fo_ff f = true -> fo_stop (fo_step f o) = fo_step f o.
+Proof.
+  intros Hb Hf. destruct o; simpl in Hb; try discriminate; unfold fo_step, fo_stop, fo_outcome;
+    cbn [fo_caps fo_ff fo_stopped fo_bad]; rewrite Hb, Hf; cbn [andb]; rewrite orb_true_r; reflexivity.
 Qed.
 
 Definition stops_if (b : bool) (l : list leaf) : list leaf := if b then map leaf_stop l else l.
@@ -359,7 +375,7 @@ Qed.
 
 Lemma step_ok n : forall o, step_law n o.
 Proof.
-  induction n as [r|e|l IH|ff e x IH|e x IH|ff x IH] using node_ind'; intros o cov.
+  induction n as [r|e|f|l IH|ff e x IH|e x IH|ff x IH] using node_ind'; intros o cov.
   - simpl. unfold map2, leaf_evolve, leaf_deliver, stops_if; simpl.
     destruct (is_bad_call o) eqn:Eb; simpl; [|reflexivity].
     destruct cov; simpl; [reflexivity|]. destruct (tr_ff r) eqn:Ef; [|reflexivity].
@@ -368,6 +384,10 @@ Proof.
     destruct (is_bad_call o) eqn:Eb; simpl; [|reflexivity].
     destruct cov; simpl; [reflexivity|]. destruct (e_ff e) eqn:Ef; [|reflexivity].
     rewrite e2s_self_stop; auto.
+  - simpl. unfold map2, leaf_evolve, leaf_deliver, stops_if; simpl.
+    destruct (is_bad_call o) eqn:Eb; simpl; [|reflexivity].
+    destruct cov; simpl; [reflexivity|]. destruct (fo_ff f) eqn:Ef; [|reflexivity].
+    rewrite fo_self_stop; auto.
   - simpl. induction IH as [|ec r H _ IHr]; [destruct (is_bad_call o && cov); reflexivity|].
     simpl. rewrite map2_app by apply finfo_length. rewrite stops_if_app, IHr. f_equal.
     destruct ec as [e c]. simpl.
@@ -416,7 +436,7 @@ Proof. simpl. f_equal. revert j. induction l as [|ec r IH]; intros [|j]; simpl; 
 
 Lemma fpaths_length n : length (fpaths (frame n)) = length (lvs n).
 Proof.
-  induction n as [r|e|l IH|ff e x IH|e x IH|ff x IH] using node_ind'; try reflexivity;
+  induction n as [r|e|f|l IH|ff e x IH|e x IH|ff x IH] using node_ind'; try reflexivity;
     try (simpl; rewrite map_length; exact IH).
   cbn [frame]. rewrite fpaths_FM. simpl. generalize 0.
   induction IH as [|ec r H _ IHr]; intro k; simpl; [reflexivity|].
@@ -463,7 +483,7 @@ Proof.
       - rewrite IHq. apply map2_ext. intros pa y _. reflexivity.
       - rewrite (map2_ext _ (fun _ y => y)); [symmetry; apply map2_snd, fpaths_length|].
         intros pa y _. reflexivity. }
-    destruct n as [r|e|l|ff e x|e x|ff x]; try reflexivity.
+    destruct n as [r|e|f|l|ff e x|e x|ff x]; try reflexivity.
     + rewrite stop_at_Multi. cbn [frame lvs]. rewrite fpaths_FM.
       assert (G : forall l k j', k + j' = j ->
                 lvs (NMulti (gstop q l j'))
@@ -543,12 +563,25 @@ Lemma since_run_snoc h o :
 Proof. unfold since_run. rewrite fold_left_app. simpl. destruct o; reflexivity. Qed.
 
 Lemma is_problem_bad o : is_problem o = is_bad_call o.
-Proof. destruct o as [| | k t | | | k t |]; try reflexivity; destruct k; reflexivity. Qed.
+Proof. destruct o as [| | k d t | | | k d t |]; try reflexivity; destruct k; reflexivity. Qed.
 
 Lemma leaf_ff_stop l : leaf_ff (leaf_stop l) = leaf_ff l.
 Proof. destruct l; reflexivity. Qed.
 Lemma leaf_ff_step l m : leaf_ff (leaf_step l m) = leaf_ff l.
-Proof. destruct l; simpl; [apply tr_ff_step|apply e_ff_step]. Qed.
+Proof. destruct l; simpl; [apply tr_ff_step|apply e_ff_step|apply fo_ff_step]. Qed.
+
+Lemma leaf_resets_stop l : leaf_resets (leaf_stop l) = leaf_resets l.
+Proof. destruct l; reflexivity. Qed.
+Lemma leaf_resets_step l m : leaf_resets (leaf_step l m) = leaf_resets l.
+Proof. destruct l; reflexivity. Qed.
+Lemma bad_lands c k : bad (fo_lands c k) = bad k.
+Proof. destruct k; try reflexivity. simpl. destruct (fc_uxs c); reflexivity. Qed.
+(* every path through the decorator's outcome methods: stopped exactly when failfast is set *)
+Lemma fo_stopped_outcome f k d : fo_stopped (fo_outcome f k d) = fo_stopped f || (bad k && fo_ff f).
+Proof.
+  unfold fo_outcome. cbn [fo_stopped]. rewrite bad_lands.
+  destruct (fo_stopped f), (bad k), (fo_ff f), (fc_failfast (fo_caps f)), (fc_acts (fo_caps f)); reflexivity.
+Qed.
 
 Lemma leaf_ff_do s l o : leaf_ff (leaf_do s l o) = leaf_ff l.
 Proof.
@@ -562,12 +595,12 @@ Qed.
 Lemma leaf_stopped_step l m :
   leaf_stopped (leaf_step l m) =
   match m with
-  | StartRun => false
-  | Outcome k _ | Block k _ => leaf_stopped l || (bad k && leaf_ff l)
+  | StartRun => if leaf_resets l then false else leaf_stopped l
+  | Outcome k _ _ | Block k _ _ => leaf_stopped l || (bad k && leaf_ff l)
   | _ => leaf_stopped l
   end.
 Proof.
-  destruct l as [r|e]; destruct m; try reflexivity.
+  destruct l as [r|e|f]; destruct m; try reflexivity; try apply fo_stopped_outcome.
   - simpl. unfold tr_outcome; simpl. destruct (bad k && tr_ff r); simpl; rewrite ?orb_true_r, ?orb_false_r; reflexivity.
   - simpl. destruct (tr_text r); reflexivity.
   - simpl. unfold tr_outcome; simpl. destruct (bad k && tr_ff r); simpl; rewrite ?orb_true_r, ?orb_false_r; reflexivity.
@@ -580,14 +613,14 @@ Qed.
 Lemma leaf_stopped_do u w pa l o : (leaf_ff l = true -> w = true) ->
   leaf_stopped (leaf_do (u, w, pa) l o) =
   match o with
-  | StartRun => false
+  | StartRun => if leaf_resets l then false else leaf_stopped l
   | StopAt p => leaf_stopped l || is_prefix p pa
   | _ => leaf_stopped l || (is_bad_call o && w)
   end.
 Proof.
   intro Hw.
   assert (St : leaf_stopped (leaf_stop l) = true) by (destruct l; reflexivity).
-  destruct o as [|t|k t|t| |k t|p]; simpl; unfold leaf_evolve, leaf_deliver, mark; simpl;
+  destruct o as [|t|k d t|t| |k d t|p]; simpl; unfold leaf_evolve, leaf_deliver, mark; simpl;
     try (destruct u; simpl; rewrite ?leaf_stopped_step, ?orb_false_r; reflexivity).
   - (* Outcome *)
     destruct (bad k && w) eqn:E.
@@ -614,22 +647,42 @@ Proof.
   induction h as [|o r IH] using rev_ind; [reflexivity|]. rewrite traj_snoc, leaf_ff_do. exact IH.
 Qed.
 
+Lemma leaf_resets_do s l o : leaf_resets (leaf_do s l o) = leaf_resets l.
+Proof.
+  assert (D : forall u, leaf_resets (leaf_deliver u l o) = leaf_resets l).
+  { intro u. unfold leaf_deliver. destruct (if u then tfr_conv o else Some o); [apply leaf_resets_step|reflexivity]. }
+  destruct o; simpl; unfold leaf_evolve, mark;
+    repeat match goal with |- context [if ?c then _ else _] => destruct c end;
+    rewrite ?leaf_resets_stop, ?D; reflexivity.
+Qed.
+Lemma traj_resets s l h : leaf_resets (traj s l h) = leaf_resets l.
+Proof.
+  induction h as [|o r IH] using rev_ind; [reflexivity|]. rewrite traj_snoc, leaf_resets_do. exact IH.
+Qed.
+
 (* shouldStop of an underlying result = stop() reached it, or the stack stops it and a bad outcome came,
-   since the last startTestRun *)
+   since the last startTestRun (testtools' own results) / ever (foreign results, which never clear it) *)
 Lemma stopped_after u w pa l h : leaf_stopped l = false -> (leaf_ff l = true -> w = true) ->
   leaf_stopped (traj (u, w, pa) l h)
-  = existsb (stop_reaches pa) (since_run h) || (w && existsb is_problem (since_run h)).
+  = existsb (stop_reaches pa) (scope (leaf_resets l) h) || (w && existsb is_problem (scope (leaf_resets l) h)).
 Proof.
   intros H0 Hw. induction h as [|o r IH] using rev_ind.
-  - simpl. rewrite H0, andb_false_r. reflexivity.
+  - destruct (leaf_resets l); simpl; rewrite H0, andb_false_r; reflexivity.
   - rewrite traj_snoc, leaf_stopped_do by (rewrite traj_ff; exact Hw).
-    rewrite since_run_snoc, IH.
-    destruct o as [|t|k t|t| |k t|p]; rewrite ?existsb_app; simpl; rewrite ?is_problem_bad; simpl;
-      generalize (existsb (stop_reaches pa) (since_run r)) (existsb is_problem (since_run r));
-      intros a b; try (destruct a, b, w; reflexivity).
-    + destruct a, b, w, (bad k); reflexivity.
-    + destruct a, b, w, (bad k); reflexivity.
-    + destruct a, b, w, (is_prefix p pa); reflexivity.
+    rewrite traj_resets, IH. unfold scope. destruct (leaf_resets l).
+    + rewrite since_run_snoc.
+      destruct o as [|t|k d t|t| |k d t|p]; rewrite ?existsb_app; simpl; rewrite ?is_problem_bad; simpl;
+        generalize (existsb (stop_reaches pa) (since_run r)) (existsb is_problem (since_run r));
+        intros a b; try (destruct a, b, w; reflexivity).
+      * destruct a, b, w, (bad k); reflexivity.
+      * destruct a, b, w, (bad k); reflexivity.
+      * destruct a, b, w, (is_prefix p pa); reflexivity.
+    + destruct o as [|t|k d t|t| |k d t|p]; rewrite !existsb_app; simpl; rewrite ?is_problem_bad; simpl;
+        generalize (existsb (stop_reaches pa) r) (existsb is_problem r);
+        intros a b; try (destruct a, b, w; reflexivity).
+      * destruct a, b, w, (bad k); reflexivity.
+      * destruct a, b, w, (bad k); reflexivity.
+      * destruct a, b, w, (is_prefix p pa); reflexivity.
 Qed.
 
 (* ---------- the part of a TestResult that stop() and failfast do not touch ---------- *)
@@ -655,8 +708,8 @@ Definition core_step1 (c : core) (m : op) : core :=
   | StartRun => {| c_err := []; c_fail := []; c_uxs := []; c_run := 0; c_text := c_text c; c_out := c_out c |}
   | StartTest _ => {| c_err := c_err c; c_fail := c_fail c; c_uxs := c_uxs c; c_run := S (c_run c);
                       c_text := c_text c; c_out := c_out c |}
-  | Outcome k t => c_add c k t (c_run c)
-  | Block k t => c_add c k t (S (c_run c))
+  | Outcome k _ t => c_add c k t (c_run c)
+  | Block k _ t => c_add c k t (S (c_run c))
   | StopRun => if c_text c then {| c_err := c_err c; c_fail := c_fail c; c_uxs := c_uxs c; c_run := c_run c;
                                    c_text := true; c_out := c_out c ++ [c_summary c] |} else c
   | _ => c
@@ -707,6 +760,15 @@ Proof.
   destruct E as [e1 E1]. rewrite E1. apply IH.
 Qed.
 
+Lemma for_traj s h : forall f, exists f', traj s (LFor f) h = LFor f'.
+Proof.
+  induction h as [|o t IH]; intro f; [eexists; reflexivity|]. unfold traj in *. simpl.
+  assert (E : exists f1, leaf_do s (LFor f) o = LFor f1).
+  { destruct s as [[u w] pa]. destruct o; simpl; unfold leaf_evolve, leaf_deliver, mark; simpl;
+      repeat match goal with |- context [if ?c then _ else _] => destruct c end; simpl; eexists; reflexivity. }
+  destruct E as [f1 E1]. rewrite E1. apply IH.
+Qed.
+
 (* ---------- ... and what it holds after a history ---------- *)
 Definition one_problem (o : op) : list (nat * tid) := match problem o with Some p => [p] | None => [] end.
 
@@ -722,16 +784,18 @@ Proof. unfold count. rewrite filter_app, app_length. reflexivity. Qed.
 
 Lemma sections_add c k t run x :
   count sec_eqb x (c_sections (c_add c k t run))
-  = count sec_eqb x (c_sections c) + count sec_eqb x (one_problem (Outcome k t)).
+  = count sec_eqb x (c_sections c) + count sec_eqb x (one_problem (Outcome k false t)).
 Proof.
   unfold c_sections, one_problem. destruct k; cbn [c_add c_err c_fail c_uxs problem];
     rewrite ?map_app, ?count_app; cbn [map]; change (count sec_eqb x []) with 0; lia.
 Qed.
 Lemma lengths_add c k t run :
   length (c_fail (c_add c k t run)) + length (c_err (c_add c k t run)) + length (c_uxs (c_add c k t run))
-  = length (c_fail c) + length (c_err c) + length (c_uxs c) + length (one_problem (Outcome k t)).
+  = length (c_fail c) + length (c_err c) + length (c_uxs c) + length (one_problem (Outcome k false t)).
 Proof. unfold one_problem. destruct k; simpl; rewrite ?app_length; simpl; lia. Qed.
-Lemma one_problem_block k t : one_problem (Block k t) = one_problem (Outcome k t).
+Lemma one_problem_form k d d' t : one_problem (Outcome k d t) = one_problem (Outcome k d' t).
+Proof. destruct k; reflexivity. Qed.
+Lemma one_problem_block k d t : one_problem (Block k d t) = one_problem (Outcome k false t).
 Proof. destruct k; reflexivity. Qed.
 
 Definition cfold (u : bool) (h : list op) (c : core) : core := fold_left (core_step u) h c.
@@ -763,7 +827,7 @@ Proof.
     - rewrite problems_app, Hp, app_nil_r, E2, E3, E4. exact I2.
     - rewrite filter_app, app_length. cbn [filter]. rewrite E5, I3.
       destruct (counts_as_test u o); simpl; lia. }
-  assert (added : forall k t run, one_problem o = one_problem (Outcome k t) -> o <> StartRun ->
+  assert (added : forall k t run, one_problem o = one_problem (Outcome k false t) -> o <> StartRun ->
                     run = c_run c + (if counts_as_test u o then 1 else 0) ->
                     core_inv u (r ++ [o]) (c_add c k t run)).
   { intros k t run Hp Hn Hr. rewrite <- problems_one in Hp.
@@ -773,7 +837,7 @@ Proof.
     - rewrite problems_app, app_length, Hp, lengths_add, I2. reflexivity.
     - rewrite filter_app, app_length. cbn [filter c_add c_run]. rewrite Hr, I3.
       destruct (counts_as_test u o); simpl; lia. }
-  unfold core_step. destruct o as [|t|k t|t| |k t|p]; destruct u; simpl.
+  unfold core_step. destruct o as [|t|k d t|t| |k d t|p]; destruct u; simpl.
   all: try (apply plain; try reflexivity; try discriminate; simpl; lia).
   all: try (apply added; [rewrite ?one_problem_block; reflexivity|discriminate|simpl; lia]).
   all: try (constructor; rewrite since_run_snoc; reflexivity).
@@ -832,6 +896,7 @@ Section adapter_ind'.
   Variable P : adapter -> Prop.
   Hypothesis HR : forall ff txt, P (ATR ff txt).
   Hypothesis HS : P AE2S.
+  Hypothesis HX : forall c, P (AFor c).
   Hypothesis HM : forall l, Forall P l -> P (AMulti l).
   Hypothesis HF : forall a, P a -> P (ATFR a).
   Hypothesis HO : forall a, P a -> P (AE2O a).
@@ -840,7 +905,7 @@ Section adapter_ind'.
     let fix go (l : list adapter) : Forall P l :=
       match l with [] => Forall_nil _ | x :: r => Forall_cons x (adapter_ind' x) (go r) end in
     match a with
-    | ATR ff txt => HR ff txt | AE2S => HS | AMulti l => HM l (go l)
+    | ATR ff txt => HR ff txt | AE2S => HS | AFor c => HX c | AMulti l => HM l (go l)
     | ATFR x => HF x (adapter_ind' x) | AE2O x => HO x (adapter_ind' x) | ADeco t x => HD t x (adapter_ind' x)
     end.
 End adapter_ind'.
@@ -852,6 +917,7 @@ Fixpoint descr (u : bool) (n : node) : list dsc :=
   match n with
   | NTR r => [([], u, LTR r)]
   | NE2S e => [([], u, LE2S e)]
+  | NFor f => [([], u, LFor f)]
   | NMulti l => (fix go (j : nat) (l : list (bool * node)) : list dsc :=
                    match l with [] => [] | ec :: r => map (down j) (descr u (snd ec)) ++ go (S j) r end) 0 l
   | NTFR _ _ x => map (down 0) (descr true x)
@@ -864,7 +930,7 @@ Proof. simpl. generalize 0. induction l as [|ec r IH]; intro k; simpl; [reflexiv
 
 Lemma descr_lvs n : forall u, map snd (descr u n) = lvs n.
 Proof.
-  induction n as [r|e|l IH|ff e x IH|e x IH|ff x IH] using node_ind'; intro u; try reflexivity;
+  induction n as [r|e|f|l IH|ff e x IH|e x IH|ff x IH] using node_ind'; intro u; try reflexivity;
     try (simpl; rewrite map_map; simpl; apply IH).
   rewrite descr_Multi. simpl. generalize 0.
   induction IH as [|ec r H _ IHr]; intro k; simpl; [reflexivity|].
@@ -873,7 +939,7 @@ Qed.
 
 Lemma descr_paths n : forall u, map (fun d => fst (fst d)) (descr u n) = fpaths (frame n).
 Proof.
-  induction n as [r|e|l IH|ff e x IH|e x IH|ff x IH] using node_ind'; intro u; try reflexivity;
+  induction n as [r|e|f|l IH|ff e x IH|e x IH|ff x IH] using node_ind'; intro u; try reflexivity;
     try (simpl; rewrite map_map; simpl;
          rewrite <- (map_map (fun d : list nat * bool * leaf => fst (fst d)) (cons 0)), IH; reflexivity).
   rewrite descr_Multi. cbn [frame]. rewrite fpaths_FM. generalize 0.
@@ -883,7 +949,7 @@ Qed.
 
 Lemma descr_unders n : forall cov u, map (fun d => snd (fst d)) (descr u n) = map fst (finfo cov u (frame n)).
 Proof.
-  induction n as [r|e|l IH|ff e x IH|e x IH|ff x IH] using node_ind'; intros cov u; try reflexivity;
+  induction n as [r|e|f|l IH|ff e x IH|e x IH|ff x IH] using node_ind'; intros cov u; try reflexivity;
     try (simpl; rewrite map_map; simpl; apply IH).
   rewrite descr_Multi. simpl. generalize 0.
   induction IH as [|ec r H _ IHr]; intro k; simpl; [reflexivity|].
@@ -894,7 +960,8 @@ Qed.
 Lemma ff_implies_will n : forall cov u,
   Forall2 (fun uw l => leaf_ff l = true -> snd uw = true) (finfo cov u (frame n)) (lvs n).
 Proof.
-  induction n as [r|e|l IH|ff e x IH|e x IH|ff x IH] using node_ind'; intros cov u; simpl; try apply IH.
+  induction n as [r|e|f|l IH|ff e x IH|e x IH|ff x IH] using node_ind'; intros cov u; simpl; try apply IH.
+  - constructor; [|constructor]. simpl. intros ->. apply orb_true_r.
   - constructor; [|constructor]. simpl. intros ->. apply orb_true_r.
   - constructor; [|constructor]. simpl. intros ->. apply orb_true_r.
   - induction IH as [|ec r H _ IHr]; simpl; [constructor|]. apply Forall2_app; [apply H|exact IHr].
@@ -905,6 +972,7 @@ Definition same_but_ff (l l' : leaf) : Prop :=
   match l, l' with
   | LTR r, LTR r' => core_of r' = core_of r /\ tr_stopped r' = tr_stopped r
   | LE2S e, LE2S e' => e_stopped e' = e_stopped e
+  | LFor f, LFor f' => fo_stopped f' = fo_stopped f
   | _, _ => False
   end.
 Definition dsc_same (d d' : dsc) : Prop := fst d' = fst d /\ same_but_ff (snd d) (snd d').
@@ -921,8 +989,9 @@ Qed.
 
 Lemma descr_set_ff b n : forall u, Forall2 dsc_same (descr u n) (descr u (set_ff b n)).
 Proof.
-  induction n as [r|e|l IH|ff e x IH|e x IH|ff x IH] using node_ind'; intro u;
+  induction n as [r|e|f|l IH|ff e x IH|e x IH|ff x IH] using node_ind'; intro u;
     try (simpl; apply dsc_same_refl).
+  - simpl. constructor; [|constructor]. split; [reflexivity|]. simpl. auto.
   - simpl. constructor; [|constructor]. split; [reflexivity|]. simpl. auto.
   - simpl. constructor; [|constructor]. split; [reflexivity|]. simpl. auto.
   - cbn [set_ff]. rewrite !descr_Multi. generalize 0.
@@ -935,7 +1004,9 @@ Qed.
 Definition fresh_for (li : leaf_info) (l : leaf) : Prop :=
   match l with
   | LTR r => li_e2s li = false /\ core_of r = fresh_core (li_text li) /\ tr_stopped r = false
-  | LE2S e => li_e2s li = true /\ li_text li = false /\ e_stopped e = false
+              /\ li_foreign li = false
+  | LE2S e => li_e2s li = true /\ li_text li = false /\ e_stopped e = false /\ li_foreign li = false
+  | LFor f => li_e2s li = false /\ li_text li = false /\ fo_stopped f = false /\ li_foreign li = true
   end.
 Definition matches (u : bool) (li : leaf_info) (d : list nat * bool * leaf) : Prop :=
   fst (fst d) = li_path li /\ snd (fst d) = u || li_tfr li /\ fresh_for li (snd d).
@@ -962,6 +1033,7 @@ Proof.
   destruct x as [px lx], x' as [px' lx']; simpl in *. destruct lx, lx'; simpl in *; try contradiction.
   - destruct E2 as [Ec Es]. rewrite Ec, Es. exact M3.
   - rewrite E2. exact M3.
+  - rewrite E2. exact M3.
 Qed.
 
 Lemma matches_down u j l d : Forall2 (matches u) l d -> Forall2 (matches u) (map (li_down j) l) (map (down j) d).
@@ -973,9 +1045,10 @@ Qed.
 
 Lemma build_descr a : forall u, Forall2 (matches u) (leaf_infos a) (descr u (build a)).
 Proof.
-  induction a as [ff txt| |l IH|x IH|x IH|t x IH] using adapter_ind'; intro u.
-  - simpl. constructor; [|constructor]. unfold matches; simpl. rewrite orb_false_r. auto.
-  - simpl. constructor; [|constructor]. unfold matches; simpl. rewrite orb_false_r. auto.
+  induction a as [ff txt| |c|l IH|x IH|x IH|t x IH] using adapter_ind'; intro u.
+  - simpl. constructor; [|constructor]. unfold matches; simpl. rewrite orb_false_r. repeat split.
+  - simpl. constructor; [|constructor]. unfold matches; simpl. rewrite orb_false_r. repeat split.
+  - simpl. constructor; [|constructor]. unfold matches; simpl. rewrite orb_false_r. repeat split.
   - rewrite leaf_infos_Multi. cbn [build]. rewrite descr_Multi. generalize 0.
     induction IH as [|x r H _ IHr]; intro k; simpl; [constructor|].
     apply Forall2_app; [|apply IHr]. apply matches_down.
@@ -1101,7 +1174,9 @@ Lemma forallb_forall_map {A B} (p : B -> bool) (f : A -> B) l : forallb p (map f
 Proof. induction l as [|x r IH]; simpl; [reflexivity|]. rewrite IH. reflexivity. Qed.
 
 Lemma fresh_not_stopped li l : fresh_for li l -> leaf_stopped l = false.
-Proof. destruct l; simpl; intros [_ [_ H]]; exact H. Qed.
+Proof. destruct l; simpl; intros [_ [_ [H _]]]; exact H. Qed.
+Lemma fresh_resets li l : fresh_for li l -> leaf_resets l = negb (li_foreign li).
+Proof. destruct l; simpl; intros [_ [_ [_ H]]]; rewrite H; reflexivity. Qed.
 
 (* C04_failfast / C04_stop_reaches, per underlying result *)
 Lemma leaf_stops_after i pre : finding_F18 i = false ->
@@ -1111,7 +1186,8 @@ Proof.
   intro Hf. rewrite leaf_stops_lvs, lvs_after, map_map. apply maps_of_F2.
   eapply Forall2_impl; [|apply (setup i Hf)].
   intros li [[[u w] pa] l]. unfold good; simpl. intros [Hu [Hi [Hp [Fr Hw]]]]. subst u w pa.
-  rewrite stopped_after; [reflexivity|eapply fresh_not_stopped; exact Fr|exact Hw].
+  rewrite stopped_after; [|eapply fresh_not_stopped; exact Fr|exact Hw].
+  rewrite (fresh_resets _ _ Fr). reflexivity.
 Qed.
 
 Lemma problems_nil l : match problems l with [] => true | _ => false end = negb (existsb is_problem l).
@@ -1122,7 +1198,7 @@ Qed.
 
 Lemma wf_has_leaf a : wf_stack a = true -> leaf_infos a <> [].
 Proof.
-  induction a as [ff txt| |l IH|x IH|x IH|t x IH] using adapter_ind'; simpl; intro H; try discriminate;
+  induction a as [ff txt| |c|l IH|x IH|x IH|t x IH] using adapter_ind'; simpl; intro H; try discriminate;
     try (intro E; apply map_eq_nil in E; revert E; apply IH; exact H).
   destruct l as [|x r]; [discriminate|]. simpl in H. apply andb_true_iff in H as [H1 _].
   inversion IH; subst. intro E. apply app_eq_nil in E as [E _]. apply map_eq_nil in E. revert E. apply H2. exact H1.
@@ -1139,21 +1215,24 @@ Lemma F2_Forall_r {A B} (P : B -> Prop) (Q : A -> B -> Prop) a b :
 Proof. intros H K. induction H; constructor; eauto. Qed.
 
 (* C04_verdict *)
-Lemma was_ok_after i pre : wf i -> finding_F18 i = false -> has_e2s i = false ->
+Lemma not_exists_all {A} (p : A -> bool) l : existsb p l = false -> Forall (fun x => p x = false) l.
+Proof.
+  intro H. apply Forall_forall. intros x Hin. destruct (p x) eqn:E; [|reflexivity].
+  assert (existsb p l = true) by (apply existsb_exists; eauto). congruence.
+Qed.
+
+Lemma was_ok_after i pre : wf i -> finding_F18 i = false -> has_e2s i = false -> has_foreign i = false ->
   was_ok (fold_left do_op pre (init (stack i) (set_after i))) = want_ok pre.
 Proof.
-  intros Hwf Hf He. rewrite was_ok_lvs, lvs_after, forallb_forall_map.
+  intros Hwf Hf He Hx. rewrite was_ok_lvs, lvs_after, forallb_forall_map.
   pose proof (setup i Hf) as S. simpl in S.
   apply forallb_const.
   - intro E. apply (wf_has_leaf _ Hwf). rewrite E in S. inversion S. reflexivity.
-  - unfold has_e2s in He.
-    assert (Hall : Forall (fun li => li_e2s li = false) (leaf_infos (stack i))).
-    { apply Forall_forall. intros li Hin. destruct (li_e2s li) eqn:E; [|reflexivity].
-      assert (existsb li_e2s (leaf_infos (stack i)) = true) by (apply existsb_exists; eauto). congruence. }
-    clear He. induction S as [|li sl I SL G _ IH]; [constructor|]. inversion Hall; subst.
+  - pose proof (not_exists_all _ _ He) as Hall. pose proof (not_exists_all _ _ Hx) as Hall'.
+    clear He Hx. induction S as [|li sl I SL G _ IH]; [constructor|]. inversion Hall; inversion Hall'; subst.
     constructor; [|apply IH; assumption].
     destruct sl as [[[u w] pa] l]. unfold good in G; simpl in G. destruct G as [-> [_ [_ [Fr _]]]]. simpl.
-    destruct l as [r0|e0]; simpl in Fr; [|destruct Fr as [Fr _]; congruence].
+    destruct l as [r0|e0|f0]; simpl in Fr; [|destruct Fr as [Fr _]; congruence|destruct Fr as [_ [_ [_ Fr]]]; congruence].
     destruct Fr as [_ [Fc _]].
     destruct (core_traj (li_tfr li, w, pa) pre r0) as [r' [Et Ec]]. rewrite Et. simpl in *.
     rewrite tr_ok_core, Ec, Fc. cbn [fst]. fold (cfold (li_tfr li) pre (fresh_core (li_text li))).
@@ -1171,7 +1250,7 @@ Proof.
   intros Hf n0. rewrite leaf_outs_lvs. unfold n0. rewrite lvs_after, map_map. apply F2_map_r.
   eapply Forall2_impl; [|apply (setup i Hf)].
   intros li [[[u w] pa] l]. unfold good; simpl. intros [Hu [_ [_ [Fr _]]]]. subst u.
-  destruct l as [r0|e0]; simpl in Fr.
+  destruct l as [r0|e0|f0]; simpl in Fr.
   - destruct Fr as [_ [Fc _]].
     destruct (core_traj (li_tfr li, w, pa) (hist i) r0) as [r' [Et Ec]]. rewrite Et. simpl in Ec |- *.
     assert (Eo : tr_out r' = c_out (core_of r')) by reflexivity. rewrite Eo, Ec, Fc.
@@ -1181,6 +1260,8 @@ Proof.
     rewrite forall2b_map_r. apply forallb_forall. intros p _. apply summary_ok. apply core_inv_holds.
   - destruct Fr as [_ [Ft _]]. rewrite Ft. destruct (e2s_traj (li_tfr li, w, pa) (hist i) e0) as [e' Et].
     rewrite Et. reflexivity.
+  - destruct Fr as [_ [Ft _]]. rewrite Ft. destruct (for_traj (li_tfr li, w, pa) (hist i) f0) as [f' Et].
+    rewrite Et. reflexivity.
 Qed.
 
 (* ---------- the statement ---------- *)
@@ -1188,7 +1269,8 @@ Theorem model_meets_spec : forall i, wf i -> finding_F18 i = false -> spec_okb i
 Proof.
   intros i Hwf Hf. unfold spec_okb, model. set (n0 := init (stack i) (set_after i)).
   rewrite states_scan. apply andb_true_iff; split; [apply andb_true_iff; split|].
-  - unfold verdict_okb. cbn [o_ok]. destruct (has_e2s i) eqn:He; [reflexivity|]. simpl.
+  - unfold verdict_okb. cbn [o_ok]. destruct (has_e2s i) eqn:He; [reflexivity|].
+    destruct (has_foreign i) eqn:Hx; [reflexivity|]. simpl.
     rewrite map_map. erewrite map_ext_in; [apply lbool_eqb_refl|].
     intros pre _. apply was_ok_after; assumption.
   - unfold stop_okb. cbn [o_leaf_stop o_stop]. apply andb_true_iff; split.
@@ -1237,7 +1319,7 @@ Theorem spec_okb_sound : forall i o, spec_okb i o = true -> Spec i o.
 Proof.
   intros i o H. unfold spec_okb in H. apply andb_true_iff in H as [H H3]. apply andb_true_iff in H as [H1 H2].
   unfold stop_okb in H2. apply andb_true_iff in H2 as [H2a H2b]. unfold Spec. repeat split.
-  - intro He. unfold verdict_okb in H1. rewrite He in H1. simpl in H1. apply lbool_eqb_eq in H1. rewrite H1.
+  - intros He Hx. unfold verdict_okb in H1. rewrite He, Hx in H1. simpl in H1. apply lbool_eqb_eq in H1. rewrite H1.
     apply F2_map_r. clear. induction (prefixes (hist i)); constructor; auto.
   - revert H2a. apply forall2b_sound. intros h stops E. apply lbool_eqb_eq in E. subst stops.
     apply F2_map_r. clear. induction (leaf_infos (stack i)); constructor; auto.
@@ -1292,9 +1374,9 @@ Qed.
 (* ---------- F18: the full statement is false of the faithful model ---------- *)
 Definition witness_F18a : input :=
   {| stack := ATFR (ATR false false); set_after := Some true;
-     hist := [StartRun; StartTest 1; Outcome KError 1; StopTest 1] |}.
+     hist := [StartRun; StartTest 1; Outcome KError true 1; StopTest 1] |}.
 Definition witness_F18b : input :=
-  {| stack := AMulti [ATR true false]; set_after := None; hist := [Outcome KError 1] |}.
+  {| stack := AMulti [ATR true false]; set_after := None; hist := [Outcome KError true 1] |}.
 
 Theorem refuted_F18 :
   (wf witness_F18a /\ finding_F18 witness_F18a = true /\ spec_okb witness_F18a (model witness_F18a) = false)
@@ -1309,6 +1391,7 @@ Fixpoint all_off (n : node) : bool :=
   match n with
   | NTR r => negb (tr_ff r)
   | NE2S e => negb (e_ff e)
+  | NFor f => negb (fo_ff f)
   | NMulti l => forallb (fun ec => negb (fst ec) && all_off (snd ec)) l
   | NTFR ff e x => negb ff && negb e && all_off x
   | NE2O e x => negb e && all_off x
@@ -1317,7 +1400,8 @@ Fixpoint all_off (n : node) : bool :=
 
 Lemma all_off_get n : all_off n = true -> get_ff n = false.
 Proof.
-  induction n as [r|e|l IH|ff e x IH|e x IH|ff x IH] using node_ind'; simpl; intro H.
+  induction n as [r|e|f|l IH|ff e x IH|e x IH|ff x IH] using node_ind'; simpl; intro H.
+  - apply negb_true_iff in H. exact H.
   - apply negb_true_iff in H. exact H.
   - apply negb_true_iff in H. exact H.
   - destruct l as [|ec r]; [reflexivity|]. simpl in H. apply andb_true_iff in H as [H _].
@@ -1333,7 +1417,8 @@ Proof. intros -> H. unfold e2o_get; simpl. destruct (has_ff x); [apply all_off_g
 
 Lemma all_off_will n : all_off n = true -> forall cov, will_stop cov n = map (fun _ => cov) (lvs n).
 Proof.
-  induction n as [r|e|l IH|ff e x IH|e x IH|ff x IH] using node_ind'; simpl; intros H cov.
+  induction n as [r|e|f|l IH|ff e x IH|e x IH|ff x IH] using node_ind'; simpl; intros H cov.
+  - apply negb_true_iff in H. rewrite H, orb_false_r. reflexivity.
   - apply negb_true_iff in H. rewrite H, orb_false_r. reflexivity.
   - apply negb_true_iff in H. rewrite H, orb_false_r. reflexivity.
   - induction IH as [|ec r Hx _ IHr]; [reflexivity|]. simpl in H |- *.
@@ -1349,7 +1434,7 @@ Qed.
 
 Lemma all_off_set n : all_off n = true -> all_off (set_ff false n) = true.
 Proof.
-  induction n as [r|e|l IH|ff e x IH|e x IH|ff x IH] using node_ind'; simpl; intro H; try reflexivity.
+  induction n as [r|e|f|l IH|ff e x IH|e x IH|ff x IH] using node_ind'; simpl; intro H; try reflexivity.
   - rewrite forallb_forall_map. apply forallb_forall. intros ec Hin.
     rewrite forallb_forall in H. specialize (H ec Hin). apply andb_true_iff in H as [H1 H2].
     rewrite Forall_forall in IH. destruct (has_ff (snd ec)); simpl; [rewrite H1; simpl; apply IH; assumption|exact H2].
@@ -1372,7 +1457,7 @@ Qed.
 
 Lemma no_ctor_all_off a : ff_ctor_anywhere a = false -> all_off (build a) = true.
 Proof.
-  induction a as [ff txt| |l IH|x IH|x IH|t x IH] using adapter_ind'; simpl; intro H; try reflexivity;
+  induction a as [ff txt| |c|l IH|x IH|x IH|t x IH] using adapter_ind'; simpl; intro H; try reflexivity;
     try (apply IH; exact H).
   - rewrite H. reflexivity.
   - rewrite forallb_forall_map. apply forallb_forall. intros x Hin.
@@ -1385,10 +1470,11 @@ Qed.
 
 Lemma no_ctor_infos a : ff_ctor_anywhere a = false -> Forall (fun li => li_ff li = false) (leaf_infos a).
 Proof.
-  induction a as [ff txt| |l IH|x IH|x IH|t x IH] using adapter_ind'; intro H;
+  induction a as [ff txt| |c|l IH|x IH|x IH|t x IH] using adapter_ind'; intro H;
     try (simpl in *; apply Forall_forall; intros li Hin; apply in_map_iff in Hin as [li' [<- Hin']];
          specialize (IH H); rewrite Forall_forall in IH; simpl; apply IH; exact Hin').
   - simpl in *. constructor; [exact H|constructor].
+  - simpl. constructor; [reflexivity|constructor].
   - simpl. constructor; [reflexivity|constructor].
   - rewrite leaf_infos_Multi. simpl in H. generalize 0.
     induction IH as [|x r Hx _ IHr]; intro k; simpl; [constructor|].
@@ -1409,8 +1495,9 @@ Proof. reflexivity. Qed.
 Lemma built_get a : ff_ctor_in_multi a = false -> e2o_get (false, build a) = true ->
   Forall (fun li => li_ff li = true) (leaf_infos a).
 Proof.
-  induction a as [ff txt| |l IH|x IH|x IH|t x IH] using adapter_ind'; unfold e2o_get; simpl; intros H G.
+  induction a as [ff txt| |c|l IH|x IH|x IH|t x IH] using adapter_ind'; unfold e2o_get; simpl; intros H G.
   - constructor; [exact G|constructor].
+  - discriminate.
   - discriminate.
   - exfalso. destruct l as [|x r]; [discriminate|]. simpl in G, H. apply orb_false_iff in H as [H1 _].
     pose proof (no_ctor_all_off x H1) as Z.
@@ -1429,7 +1516,7 @@ Qed.
 Lemma built_will a : ff_ctor_in_multi a = false ->
   forall cov, will_stop cov (build a) = map (fun li => cov || li_ff li) (leaf_infos a).
 Proof.
-  induction a as [ff txt| |l IH|x IH|x IH|t x IH] using adapter_ind'; intros H cov;
+  induction a as [ff txt| |c|l IH|x IH|x IH|t x IH] using adapter_ind'; intros H cov;
     try (simpl; reflexivity).
   - rewrite leaf_infos_Multi. cbn [build will_stop]. simpl in H. generalize 0.
     induction l as [|x r IHl]; intro k; [reflexivity|]. simpl in H |- *.
@@ -1458,11 +1545,11 @@ Proof.
 Qed.
 
 Lemma has_ff_set b n : has_ff (set_ff b n) = true.
-Proof. destruct n as [r|e|l|ff e x|e x|ff x]; simpl; try reflexivity. destruct (has_ff x); reflexivity. Qed.
+Proof. destruct n as [r|e|f|l|ff e x|e x|ff x]; simpl; try reflexivity. destruct (has_ff x); reflexivity. Qed.
 
 Lemma set_set b b' n : set_ff b (set_ff b' n) = set_ff b n.
 Proof.
-  induction n as [r|e|l IH|ff e x IH|e x IH|ff x IH] using node_ind'; simpl; try reflexivity.
+  induction n as [r|e|f|l IH|ff e x IH|e x IH|ff x IH] using node_ind'; simpl; try reflexivity.
   - f_equal. rewrite map_map. apply map_ext_F. eapply Forall_impl; [|exact IH]. intros ec H. simpl.
     destruct (has_ff (snd ec)) eqn:E; simpl; [rewrite has_ff_set, H; reflexivity|rewrite E; reflexivity].
   - destruct (has_ff x) eqn:E; simpl; [rewrite has_ff_set, IH; reflexivity|rewrite E; reflexivity].
@@ -1480,7 +1567,7 @@ Qed.
 
 Lemma plain_get b a : has_wrapper a = false -> get_ff (set_ff b (build a)) = true -> b = true.
 Proof.
-  induction a as [ff txt| |l IH|x IH|x IH|t x IH] using adapter_ind'; simpl; intros H G; try discriminate;
+  induction a as [ff txt| |c|l IH|x IH|x IH|t x IH] using adapter_ind'; simpl; intros H G; try discriminate;
     try exact G.
   - destruct l as [|x r]; [discriminate|]. simpl in H, G. apply orb_false_iff in H as [H1 _].
     inversion IH; subst. fold (e2o_set false (false, build x)) in G.
@@ -1492,7 +1579,7 @@ Qed.
 Lemma plain_will b a : has_wrapper a = false ->
   forall cov, will_stop cov (set_ff b (build a)) = map (fun _ => cov || b) (leaf_infos a).
 Proof.
-  induction a as [ff txt| |l IH|x IH|x IH|t x IH] using adapter_ind'; intros H cov; try (simpl; reflexivity);
+  induction a as [ff txt| |c|l IH|x IH|x IH|t x IH] using adapter_ind'; intros H cov; try (simpl; reflexivity);
     try (simpl in H; discriminate).
   - rewrite leaf_infos_Multi. cbn [build set_ff will_stop]. simpl in H. generalize 0.
     induction l as [|x r IHl]; intro k; [reflexivity|]. simpl in H. apply orb_false_iff in H as [H1 H2].
